@@ -281,7 +281,7 @@ func init() {
 			}
 			return []*explore.Space{
 				pathSpace("C01", "S1xT3", "1-step paths x T(<=3)", pathsN(forms, 1), func() []*doc.Tree { return uniT(3) }, both, "set"),
-				pathSpace("C01", "S2xT3", "2-step paths x T(<=3)", pathsN(forms, 2), func() []*doc.Tree { return uniT(3) }, []string{"select"}, "set"),
+				pathSpace("C01", "S2xT3", "2-step paths x T(<=3)", pathsN(forms, 2), func() []*doc.Tree { return uniT(3) }, both, "set"),
 			}
 		},
 	})
